@@ -75,3 +75,59 @@ Definition qweight (s : wstate) : Q := match s with Float w => quant w | Frozen 
 Definition freeze (s : wstate) : wstate := Frozen (qweight s).
 Definition update (w' : W) (s : wstate) : wstate := match s with Float _ => Float w' | Frozen q => Frozen q end.
 End Life.
+
+(* ---- what named_modules(remove_duplicate=False) shows: dotted name, identity, kind ------------- *)
+Definition kind_code (k : kind) : Z :=
+  match k with KLinear => 0 | KConv2d => 1 | KLayerNorm => 2 | KOther => 3 | KQLinear => 4 | KQConv2d => 5 | KQLayerNorm => 6 end%Z.
+
+Definition join (prefix n : string) : string := if String.eqb prefix "" then n else prefix ++ "." ++ n.
+
+Fixpoint named (prefix : string) (t : mtree) : list (string * nat * Z) :=
+  match t with
+  | Node k id ch => (prefix, id, kind_code k) :: flat_map (fun nc => named (join prefix (fst nc)) (snd nc)) ch
+  end.
+
+Definition obs_eqb (a b : string * nat * Z) : bool :=
+  String.eqb (fst (fst a)) (fst (fst b)) && Nat.eqb (snd (fst a)) (snd (fst b)) && Z.eqb (snd a) (snd b).
+
+Fixpoint list_eqb {A} (e : A -> A -> bool) (l1 l2 : list A) : bool :=
+  match l1, l2 with
+  | [], [] => true
+  | a :: l1', b :: l2' => e a b && list_eqb e l1' l2'
+  | _, _ => false
+  end.
+
+(* one correspondence case: configuration, filter, the tree before, what named_modules shows after *)
+Definition chk_quantize (c : bool * option (list nat) * mtree * list (string * nat * Z)) : bool :=
+  let '(act, filter, t, observed) := c in
+  list_eqb obs_eqb (named "" (quantize_tree {| cfg_activations := act |} filter t)) observed.
+
+Fixpoint failing_from {A} (f : A -> bool) (l : list A) (i : nat) : list nat :=
+  match l with [] => [] | x :: l' => if f x then failing_from f l' (S i) else i :: failing_from f l' (S i) end.
+Definition failing {A} (f : A -> bool) (l : list A) : list nat := failing_from f l 0.
+
+(* ---- life-cycle histories of a whole quantized model ------------------------------------------- *)
+(* The weights never change along these histories, so what a forward pass returns is determined by the
+   activation scales, i.e. by the number of calibration passes so far (the "epoch"); freeze, moves, copies
+   and state_dict reloads must change neither the epoch nor anything else observable. *)
+Inductive lop := LForward | LCalibrate | LFreeze | LMove | LCopy | LReload.
+Record lstate := { l_frozen : bool; l_epoch : nat }.
+Definition lstep (act : bool) (s : lstate) (o : lop) : lstate :=
+  match o with
+  | LCalibrate => {| l_frozen := l_frozen s; l_epoch := if act then S (l_epoch s) else l_epoch s |}
+  | LFreeze => {| l_frozen := true; l_epoch := l_epoch s |}
+  | _ => s
+  end.
+Fixpoint ltrace (act : bool) (s : lstate) (ops : list lop) : list (bool * nat) :=
+  match ops with
+  | [] => []
+  | o :: r => let s' := lstep act s o in (l_frozen s', l_epoch s') :: ltrace act s' r
+  end.
+Definition lop_of (z : Z) : lop :=
+  match z with 0 => LForward | 1 => LCalibrate | 2 => LFreeze | 3 => LMove | 4 => LCopy | _ => LReload end%Z.
+Definition fe_eqb (a b : bool * nat) : bool := Bool.eqb (fst a) (fst b) && Nat.eqb (snd a) (snd b).
+(* a case: activations quantized?, the history, and per step what was observed: (all quantized modules
+   frozen?, class of the outputs on the fixed probe inputs, numbered by first appearance) *)
+Definition chk_life (c : bool * list Z * list (bool * nat)) : bool :=
+  let '(act, ops, observed) := c in
+  list_eqb fe_eqb (ltrace act {| l_frozen := false; l_epoch := 0 |} (map lop_of ops)) observed.
